@@ -220,7 +220,7 @@ theorem runPass_forest (p : PassT) (c : Ctx) (fuel : Nat) (h : WF c.seg) (hF : F
         have j0 : JO (c.restartAt s0) l (some s0) :=
           JO.mk' hl hc (isok_of_mem hs0l) (fun x hx => next_mem hl hs0l x hx) hal
         rw [noteLoop_seg]
-        exact ruleLoop_forest p fuel _ s0 _ 0 j0 (show Forest (c.restartAt s0).seg from hF) hr
+        exact ruleLoop_forest p _ _ s0 _ 0 j0 (show Forest (c.restartAt s0).seg from hF) hr
 
 theorem runRange_forest (passes : Array PassT) (c : Ctx) (lo hi fuel : Nat) (h : WF c.seg) (hF : Forest c.seg) {c' : Ctx}
     (e : runRange passes c lo hi fuel = .ok (some c')) : Forest c'.seg := by
